@@ -163,6 +163,11 @@ def sh(cmd, cwd=None, timeout=1800, env=None, check=True, quiet=True):
 
 def build_harness(profiles=("dev",), features=()):
     """cargo build of the harness against /repo's working tree (incremental)."""
+    with _BuildLock():
+        return _build_harness(profiles, features)
+
+
+def _build_harness(profiles=("dev",), features=()):
     tmpl = open(os.path.join(HARNESS, "Cargo.toml.in")).read().replace("@REPO@", REPO)
     ct = os.path.join(HARNESS, "Cargo.toml")
     if not os.path.exists(ct) or open(ct).read() != tmpl:
@@ -186,10 +191,28 @@ def build_harness(profiles=("dev",), features=()):
     return bins
 
 
+class _BuildLock:
+    """Checks of several properties may be started at the same moment in one tree: the builds they share (the Coq development,
+    the extracted model driver, the harness) are made one at a time; everything after the builds runs in parallel."""
+
+    def __enter__(self):
+        import fcntl
+        os.makedirs(os.path.join(VERIF, ".run"), exist_ok=True)
+        self.f = open(os.path.join(VERIF, ".run", "build.lock"), "w")
+        fcntl.flock(self.f, fcntl.LOCK_EX)
+        return self
+
+    def __exit__(self, *a):
+        import fcntl
+        fcntl.flock(self.f, fcntl.LOCK_UN)
+        self.f.close()
+
+
 def coq_make(targets, timeout=1500):
     """Full .vo build of the given targets (relative to coq/)."""
-    sh("./gen.sh", cwd=COQ)
-    p = sh(["make", "-j%d" % NPROC] + list(targets), cwd=COQ, timeout=timeout, check=False)
+    with _BuildLock():
+        sh("./gen.sh", cwd=COQ)
+        p = sh(["make", "-j%d" % NPROC] + list(targets), cwd=COQ, timeout=timeout, check=False)
     return p.returncode == 0, p.stdout
 
 
@@ -206,13 +229,15 @@ def build_model_driver():
     drv = os.path.join(bdir, "drv")
     dvo = os.path.join(COQ, "theories/Extract/Dispatch.vo")
     src = os.path.join(OCAML, "driver.ml")
-    if os.path.exists(drv) and os.path.getmtime(drv) > max(os.path.getmtime(dvo), os.path.getmtime(src)):
-        return drv
-    sh(["coqc", "-Q", "../theories", "KV", "../theories/Extract/Extract.v"], cwd=exdir, timeout=600)
-    for f in ("model.ml", "model.mli"):
-        shutil.copy(os.path.join(exdir, f), os.path.join(bdir, f))
-    shutil.copy(src, os.path.join(bdir, "driver.ml"))
-    sh("ocamlfind ocamlopt -O2 -w -a model.mli model.ml driver.ml -o drv.new && mv drv.new drv", cwd=bdir, timeout=600)
+    with _BuildLock():
+        if os.path.exists(drv) and os.path.getmtime(drv) > max(os.path.getmtime(dvo), os.path.getmtime(src)):
+            return drv
+        sh(["coqc", "-Q", "../theories", "KV", "../theories/Extract/Extract.v"], cwd=exdir, timeout=600)
+        for f in ("model.ml", "model.mli"):
+            shutil.copy(os.path.join(exdir, f), os.path.join(bdir, f))
+        shutil.copy(src, os.path.join(bdir, "driver.ml"))
+        tmp = "drv.new.%d" % os.getpid()
+        sh("ocamlfind ocamlopt -O2 -w -a model.mli model.ml driver.ml -o %s && mv %s drv" % (tmp, tmp), cwd=bdir, timeout=600)
     return drv
 
 
